@@ -217,8 +217,9 @@ let judge_ok (c : case) : string =
                                 | Some "witness-is-not-an-extension"
                                   when semname = "PR" && q = "DC" && L.mem a w
                                        && AF.extb AF.CO fa (L.map nat_of_int w) ->
-                                    (* F-CLI-1: exactly this class is a known finding *)
-                                    "bad witness-is-complete-but-not-preferred"
+                                    (* for DC-PR a complete extension containing the argument is a
+                                       sufficient witness (stated so by properties C04 / C05's reference) *)
+                                    "ok"
                                 | Some e -> "bad " ^ e
                                 | None ->
                                     if q = "DC" && not (L.mem a w) then "bad witness-omits-the-queried-argument"
